@@ -49,6 +49,7 @@ type c16Route struct {
 	Host string   `json:"host"`
 	Path []string `json:"path"`
 	Be   string   `json:"be"`
+	Zero bool     `json:"zero,omitempty"` // in the table with weight 0: its sibling on the same route has all the traffic
 }
 
 type c16Call struct {
@@ -87,7 +88,11 @@ type c16Step struct {
 	Served int        `json:"served,omitempty"` // burst: calls that must be served
 	Open   int        `json:"open,omitempty"`   // burst: connections open at the backend once it is over
 
+	Tabs [][]c16Route `json:"tabs,omitempty"` // tables installed while the call is in flight ("t" in ord)
+
 	waitDrop func() bool // replay of "d": waits until the closer has closed the backend's old connection
+	midTable func(k int) error // replay of "t": installs Tabs[k]
+	midTick  func()            // replay of "k": lets a clean-up pass of the proxy (and its grace period) go by
 }
 
 type c16Behaviour struct {
@@ -97,6 +102,7 @@ type c16Behaviour struct {
 	Selftest bool      `json:"selftest,omitempty"` // corrupted on purpose: the harness must reject it
 	Idx      int       `json:"idx,omitempty"`
 	Repeat   int       `json:"repeat,omitempty"` // play the behaviour this often (races do not happen every time)
+	Limits   string    `json:"limits,omitempty"` // "rx>tx": proxy.grpcmaxrxmsgsize 300000, proxy.grpcmaxtxmsgsize 40000
 	Flap     bool      `json:"flap,omitempty"`   // the backend re-enters the table while its old connection awaits closing
 }
 
@@ -121,6 +127,16 @@ func c16Body(seed int64, run string, tok string) []byte {
 	n := c16Sizes[int(h%uint64(len(c16Sizes)))]
 	if verifx.Thorough() && h%97 == 0 {
 		n = 1 << 20
+	}
+	if strings.HasPrefix(run, "L") {
+		// behaviours with non-default size limits (rx 300000 > tx 40000): "qB" lies between the two, everything
+		// else well below both
+		if n > 5000 {
+			n = 5000
+		}
+		if strings.HasPrefix(tok, "qB") {
+			n = 120000
+		}
 	}
 	b := make([]byte, n)
 	x := h | 1
@@ -210,6 +226,15 @@ func c16Trl(variant string) metadata.MD {
 		return metadata.MD{"x-c16-t": {"t1", "t2"}, "x-c16-tb-bin": {string([]byte{7, 0, 130})}}
 	}
 	return metadata.MD{}
+}
+
+func c16Has(xs []string, x string) bool {
+	for _, y := range xs {
+		if y == x {
+			return true
+		}
+	}
+	return false
 }
 
 func c16Method(path []string) string { return "/" + strings.Join(path, "/") }
@@ -676,8 +701,12 @@ func (b *c16Backend) FullDuplexCall(s grpc.BidiStreamingServer[tpb.StreamingOutp
 
 // ---------------------------------------------------------------- environment (proxy + backends + client)
 
-func c16Config(grace time.Duration) (*config.Config, error) {
-	cfg, err := config.Load([]string{"fabio", "-proxy.grpcshutdowntimeout", grace.String(), "-registry.backend", "static"}, nil)
+func c16Config(grace time.Duration, limits string) (*config.Config, error) {
+	args := []string{"fabio", "-proxy.grpcshutdowntimeout", grace.String(), "-registry.backend", "static"}
+	if limits == "rx>tx" {
+		args = append(args, "-proxy.grpcmaxrxmsgsize", "300000", "-proxy.grpcmaxtxmsgsize", "40000")
+	}
+	cfg, err := config.Load(args, nil)
 	if err != nil {
 		return nil, err
 	}
@@ -685,10 +714,10 @@ func c16Config(grace time.Duration) (*config.Config, error) {
 }
 
 func c16NewEnv(seed int64, names []string) (*c16Env, error) {
-	return c16NewEnvG(seed, names, c16GrpcGrace)
+	return c16NewEnvG(seed, names, c16GrpcGrace, "")
 }
 
-func c16NewEnvG(seed int64, names []string, grace time.Duration) (*c16Env, error) {
+func c16NewEnvG(seed int64, names []string, grace time.Duration, limits string) (*c16Env, error) {
 	env := &c16Env{seed: seed, runs: map[string]*c16Run{}, backends: map[string]*c16Backend{}}
 	for _, n := range names {
 		ln, err := net.Listen("tcp", "127.0.0.1:0")
@@ -702,7 +731,7 @@ func c16NewEnvG(seed int64, names []string, grace time.Duration) (*c16Env, error
 		env.backends[n] = b
 		go b.srv.Serve(&c16Listener{Listener: ln, be: b})
 	}
-	cfg, err := c16Config(grace)
+	cfg, err := c16Config(grace, limits)
 	if err != nil {
 		env.close()
 		return nil, err
@@ -807,7 +836,15 @@ func (e *c16Env) setTable(rs []c16Route) error {
 		if len(r.Path) == 1 {
 			p += "/"
 		}
-		fmt.Fprintf(&b, "route add svc-%s %s%s grpc://%s opts \"proto=grpc\"\n", r.Be, r.Host, p, be.addr)
+		w := ""
+		if !r.Zero {
+			for _, o := range rs {
+				if o.Zero && o.Host == r.Host && c16Method(o.Path) == c16Method(r.Path) {
+					w = " weight 1.0" // the sibling without a weight is left with 0
+				}
+			}
+		}
+		fmt.Fprintf(&b, "route add svc-%s %s%s grpc://%s%s opts \"proto=grpc\"\n", r.Be, r.Host, p, be.addr, w)
 	}
 	t, err := route.NewTable(&b)
 	if err != nil {
@@ -1095,7 +1132,7 @@ func (e *c16Env) runCallB(st *c16Step, id, drive string, barrier *c16Barrier) (o
 				return c16Res{}, false
 			}
 		}
-		nq := 0
+		nq, nt := 0, 0
 		if c.Early {
 			sendAll()
 		}
@@ -1136,6 +1173,17 @@ func (e *c16Env) runCallB(st *c16Step, id, drive string, barrier *c16Barrier) (o
 						return
 					}
 					obs.Resps = append(obs.Resps, m)
+				}
+			case "t":
+				if st.midTable != nil {
+					if err := st.midTable(nt); err != nil {
+						note("table change during the call: %v", err)
+					}
+					nt++
+				}
+			case "k":
+				if st.midTick != nil {
+					st.midTick()
 				}
 			case "d":
 				// the connection this backend had before it left the table is closed now -- the call runs
@@ -1303,12 +1351,17 @@ func c16ReplaySeq(b *c16Behaviour, seed int64, drive string, stats *c16Stats) (f
 	if b.Flap {
 		grace = c16FlapGrace
 	}
-	env, err := c16NewEnvG(seed, c16Backends(b), grace)
+	env, err := c16NewEnvG(seed, c16Backends(b), grace, b.Limits)
+	idp := "s"
+	if b.Limits != "" {
+		idp = "L"
+	}
 	if err != nil {
 		return nil, nil, err
 	}
 	defer env.close()
 	flapClosed := map[string]int64{}
+	tchange := time.Now()
 	fail := func(st *c16Step, clause, format string, a ...any) {
 		fails = append(fails, c16Diff{clause, fmt.Sprintf(format, a...)})
 		failStep = append(failStep, st)
@@ -1422,7 +1475,7 @@ func c16ReplaySeq(b *c16Behaviour, seed int64, drive string, stats *c16Stats) (f
 				acc0[n] = atomic.LoadInt64(&be.accepts)
 				inv0[n] = atomic.LoadInt64(&be.invoked)
 			}
-			id := fmt.Sprintf("s%d-%d-%d", b.Idx, i, seed)
+			id := fmt.Sprintf("%s%d-%d-%d", idp, b.Idx, i, seed)
 			if c0, flapped := flapClosed[st.Be]; flapped {
 				be := env.backends[st.Be]
 				st.waitDrop = func() bool {
@@ -1433,6 +1486,25 @@ func c16ReplaySeq(b *c16Behaviour, seed int64, drive string, stats *c16Stats) (f
 					return atomic.LoadInt64(&be.closedN) > c0
 				}
 				defer func(st *c16Step) { st.waitDrop = nil }(st)
+			}
+			if len(st.Tabs) > 0 || c16Has(st.Ord, "k") {
+				st.midTable = func(k int) error {
+					if k >= len(st.Tabs) {
+						return fmt.Errorf("no table %d", k)
+					}
+					tchange = time.Now()
+					return env.setTable(st.Tabs[k])
+				}
+				st.midTick = func() {
+					// the next clean-up pass after the last table change, its grace period, and a margin
+					next := env.created
+					for !next.After(tchange) {
+						next = next.Add(c16CleanEvery)
+					}
+					time.Sleep(time.Until(next.Add(time.Second + grace + 500*time.Millisecond)))
+					atomic.AddInt64(&stats.ticks, 1)
+				}
+				defer func(st *c16Step) { st.midTable, st.midTick = nil, nil }(st)
 			}
 			var obs c16Obs
 			var seen c16Seen
